@@ -136,8 +136,8 @@ def run(ctx, variants=(("verif", "c04"), ("verif,unsafe", "c04u"))):
             continue
         cases += [l for l in gen if l.strip()]
         cases = list(dict.fromkeys(cases))
-        if n > 0 and ctx.tier != "thorough":
-            cases = cases[::4]          # the unsafe build shares decode.go; sample it in the quick tier
+        if n > 0:
+            cases = cases[::4] if ctx.tier != "thorough" else cases[::2]   # the unsafe build shares decode.go; sampled
         path = os.path.join(os.path.dirname(drv), "c20-cases-%s-%d.txt" % (name, ctx.seed))
         with open(path, "w") as f:
             f.write("\n".join(cases) + "\n")
